@@ -9,11 +9,14 @@ import json, os, sys
 ROOT = os.path.dirname(os.path.dirname(os.path.abspath(__file__)))
 K = 40
 
-def write(prim, name, consts, ops, note):
+def write(prim, name, consts, ops, note, flavours=None):
     d = os.path.join(ROOT, "regress", prim)
     os.makedirs(d, exist_ok=True)
     with open(os.path.join(d, name), "w") as f:
-        f.write(json.dumps({"op": "run_start", "prim": prim, "consts": consts, "note": note}) + "\n")
+        h = {"op": "run_start", "prim": prim, "consts": consts, "note": note}
+        if flavours:
+            h["flavours"] = flavours
+        f.write(json.dumps(h) + "\n")
         for o in ops:
             f.write(json.dumps(o) + "\n")
 
@@ -51,7 +54,7 @@ write("timer", "mass-expire.ndjson", {"K": K, "Wk": [1, 2]},
 # oneshot broadcast: K receivers, one send
 write("oneshot", "mass-broadcast.ndjson", {"K": K, "Wk": [1, 2], "Broadcast": True, "Shared": False, "MaxV": 2, "MaxH": 1},
       fut_cycle(lambda i: {"op": "create", "r": i}, [{"op": "send", "v": 1}], slot="r"),
-      "K receivers released by one send()")
+      "K receivers released by one send()", flavours=["bc-local", "bc-pl", "bc-vlock"])
 # state broadcast: K receivers, one send, then close
 write("state", "mass-send.ndjson", {"K": K, "Wk": [1, 2], "Shared": False, "MaxSid": 3, "MaxV": 2, "MaxH": 1},
       fut_cycle(lambda i: {"op": "create", "r": i, "id": 0}, [{"op": "send", "v": 1}], slot="r"),
